@@ -472,6 +472,30 @@ def subset_fixed(c, elem_eq=None):
     c.assigns(colp)
 
 
+@contract("tables.c", "subset_remap_id_column", ["column", "num_rows", "keep", "id_map"])
+def subset_remap_id_column(c):
+    """keep_rows on a self-referencing column (mutation parent): kept rows are compacted in order and every non-null
+    reference - whether it points backwards or forwards in the table - is replaced by id_map of it"""
+    colp, n, keepp, mp = c.arg("column"), c.arg("num_rows"), c.arg("keep"), c.arg("id_map")
+    h = c.old
+    keep = keep_pre(c, n, keepp)
+    c.requires(z3.Implies(n > 0, z3.And(z3.Not(h.isnull(colp)), colp.off == 0, h.len(colp) >= n,
+                                        z3.Not(h.isnull(mp)), mp.off == 0, h.len(mp) >= n)))
+    col0, m = h.arr(colp), h.arr(mp)
+    # what keep_rows has checked before calling: references of kept rows are NULL or rows of the table
+    c.requires(z3.ForAll([i], z3.Implies(z3.And(0 <= i, i < n, keep[i] != 0), z3.And(-1 <= col0[i], col0[i] < n))),
+               "references_checked")
+    placed = lambda a, q: z3.Implies(keep[q] != 0, a[rank(q)] == z3.If(col0[q] == -1, -1, m[col0[q]]))
+    c.loop(0).invariant(lambda s: z3.And(
+        0 <= s.j, s.j <= n, s.k == rank(s.j),
+        z3.ForAll([i], z3.Implies(z3.And(0 <= i, i < s.j), placed(s.arr(colp), i))),
+        z3.ForAll([i], z3.Implies(z3.And(s.j <= i, i < n), s.arr(colp)[i] == col0[i]))))
+    c.ensures(lambda: z3.And(c.result == rank(n),
+                             z3.ForAll([i], z3.Implies(z3.And(0 <= i, i < n), placed(c.new.arr(colp), i)))),
+              "kept_rows_compacted_with_references_remapped")
+    c.assigns(colp)
+
+
 @contract("tables.c", "subset_id_column", ["column", "num_rows", "keep"])
 def subset_id_column(c):
     subset_fixed(c)
